@@ -80,11 +80,7 @@ structure St where
 def Slot.isLive (s : Slot) : Bool := s.st == .live
 
 def getSlot (args : List (List Slot)) (a i : Nat) : Option Slot :=
-  match args[a]? with
-  | none => none
-  | some l => match l[i]? with
-    | none => none
-    | some s => if s.st = .gone then none else some s
+  ((args[a]?).bind (·[i]?)).filter (·.st ≠ .gone)
 
 def setSlot (args : List (List Slot)) (a i : Nat) (s : Slot) : List (List Slot) :=
   args.modify a (·.set i s)
@@ -98,7 +94,9 @@ def put (st : St) (d : Dest) (vs : List Slot) : St :=
   match d with
   | .res => { st with res := st.res ++ vs.map Slot.val }
   | .drop => { st with lost := st.lost ++ lostOf vs }
-  | .arg a => { st with args := st.args.modify a (· ++ vs.map Slot.val) }
+  | .arg a =>
+    if a < st.args.length then { st with args := st.args.modify a (· ++ vs.map Slot.val) }
+    else { st with lost := st.lost ++ lostOf vs, oob := st.oob ++ [(a, 0)] }
 
 /-- reading / copying / moving an object that was moved from is logged -/
 def noteRam (st : St) (s : Slot) : St :=
